@@ -309,6 +309,12 @@ pub fn opts_for(prop: &str) -> GenOpts {
             o.huge_pct = 4;
             o.huge_iter_oneshot_pct = 30;
             o.pre_pct = 20;
+            // a source that never ends by itself and is stopped with skip_to_end: the skip must
+            // return, and so must every pull afterwards (seeded change C09-r10)
+            let mut kinds = Kind::ALL.to_vec();
+            kinds.push(Kind::EndlessIter);
+            kinds.push(Kind::EndlessIter);
+            o.kinds = kinds;
         }
         "C10" => {
             o.high_range_pct = 10;
@@ -978,6 +984,25 @@ pub fn generate_with(prop: &str, o: &GenOpts, base_seed: u64, index: u64) -> Run
             // ... or fewer than announced (somebody else drained the queue)
             // (far more than the pulls past the end can make up for, in most cases)
             cfg.hint_long = *rng.pick(&[1usize, 2, 40, 100, 1000]);
+        }
+    }
+    if kind.is_endless() {
+        // nothing that runs "until the end", which only a skip_to_end brings about; no huge
+        // one-shot chunk (it would try to collect the endless source)
+        cfg.len = 1 << 40;
+        cfg.hint = Hint::Unbounded;
+        cfg.terminal = Terminal::Drop;
+        cfg.tail = 0;
+        cfg.hint_short = 0;
+        cfg.hint_long = 0;
+        let keep = |op: &Op| match op {
+            Op::Drain(..) | Op::ForEach(_) | Op::EnumForEach(_) | Op::Fold(_) | Op::InUnwind => false,
+            Op::Chunk(n, _) | Op::BufNew(n) => *n <= 64,
+            _ => true,
+        };
+        cfg.pre.retain(keep);
+        for t in cfg.threads.iter_mut() {
+            t.retain(keep);
         }
     }
     if cfg.panic.is_some() {
